@@ -52,7 +52,7 @@ def main():
                 viol = [l for l in r.stdout.splitlines() if l.startswith("VIOLATION")]
                 hit[p] = {"exit": r.returncode, "violations": len(viol), "first": (viol[0] if viol else ""),
                           "detail": next((l.strip() for l in r.stdout.splitlines() if l.startswith("  ")), "")[:300]}
-                print(sid, p, "DETECTED" if viol else "missed", hit[p]["detail"][:160], flush=True)
+                print(sid, p, ("HARNESS-ERROR" if "the check itself failed" in hit[p]["detail"] else "DETECTED") if viol else "missed", hit[p]["detail"][:160], flush=True)
             results[sid] = {"property": meta["property"], "tier": tier, "checks": hit,
                             "detected_by": [p for p, h in hit.items() if isinstance(h, dict) and h["violations"]]}
         finally:
